@@ -105,6 +105,10 @@ type Mock struct{ A int }
 // @packageonly zz
 func Helper() int { return 0 }
 
+// Wrap is test-only and takes an argument, so that other uses can be nested inside a call to it.
+// @testonly
+func Wrap(x ...any) any { return x }
+
 type S struct{ K int }
 
 // Reset is test-only.
@@ -203,6 +207,16 @@ func f1(x d.T, p *d.T, s d.S, y int) {
 	s.PM()`)
 	lines(ua, `	_ = d.PT{}`, "PKGO01:PT")
 	lines(ua, `	_ = d.Mock{}`, "TONL01:Mock", "PKGO01:Mock")
+	lines(ua, `	_ = d.Wrap(d.Helper())
+	d.Wrap(
+		d.Helper(),
+		new(d.T),
+	)
+	d.Wrap(func() int {
+		x.F = 14
+		return d.Helper()
+	})`)
+	lines(ua, `	_ = d.Wrap(d.Mock{})`, "TONL01:Mock", "PKGO01:Mock")
 	lines(ua, `	if y > 0 {
 		x.F = 2
 		_ = d.T{}
